@@ -1163,7 +1163,7 @@ pub fn gen(tier: &str, rng: &mut Rng, emit: &mut dyn FnMut(String)) {
     let n = if tier == "thorough" { 100_000 } else { 6_000 };
     for i in 0..n {
         let be = if i % 2 == 0 { "json" } else { "toml" };
-        let d = random_doc(rng, 0, be == "toml");
+        let d = if i % 20 == 7 { big_doc(rng, be == "toml") } else { random_doc(rng, 0, be == "toml") };
         let ds = doc_str(&d);
         let p = random_pointer(rng, &d);
         let x = hex(p.as_bytes());
@@ -1176,6 +1176,32 @@ pub fn gen(tier: &str, rng: &mut Rng, emit: &mut dyn FnMut(String)) {
             4 => emit(format!("tree {be} {ds} N")),
             _ => emit(format!("tree {be} {ds} A {x} {}", doc_str(&v))),
         }
+    }
+}
+
+/// documents beyond the small scope: arrays of tens to hundreds of elements, nesting 10-20 deep, long keys
+pub fn big_doc(rng: &mut Rng, common: bool) -> Doc {
+    match rng.below(4) {
+        0 => Doc::Arr((0..(17 + rng.below(300))).map(|i| if rng.chance(1, 10) { random_doc(rng, 4, common) } else { Doc::Int(i as i64) }).collect()),
+        1 => {
+            // a deep spine alternating arrays and objects, with a wide array somewhere on it
+            let depth = 9 + rng.below(12);
+            let mut d = Doc::Arr((0..(rng.below(40))).map(|i| Doc::Int(i as i64)).collect());
+            for k in 0..depth {
+                d = if k % 2 == 0 {
+                    let kl = if rng.chance(1, 5) { 400 } else { 3 };
+                    Doc::Obj([(super::token::random_text(rng, kl), d), ("z".to_string(), Doc::Bool(true))].into_iter().collect())
+                } else {
+                    let mut v: Vec<Doc> = (0..rng.below(20)).map(|i| Doc::Int(i as i64)).collect();
+                    let at = rng.below(v.len() + 1);
+                    v.insert(at, d);
+                    Doc::Arr(v)
+                };
+            }
+            d
+        }
+        2 => Doc::Obj((0..(20 + rng.below(200))).map(|i| (format!("{}{}", super::token::random_text(rng, 2), i), if rng.chance(1, 8) { random_doc(rng, 4, common) } else { Doc::Int(i as i64) })).collect()),
+        _ => Doc::Obj([("list".to_string(), Doc::Arr((0..(10 + rng.below(120))).map(|i| Doc::Obj([("id".to_string(), Doc::Int(i as i64))].into_iter().collect())).collect()))].into_iter().collect()),
     }
 }
 
@@ -1296,9 +1322,9 @@ pub fn gen_hist(tier: &str, rng: &mut Rng, emit: &mut dyn FnMut(String)) {
     for i in 0..n {
         let be = if i % 2 == 0 { "json" } else { "toml" };
         let common = be == "toml";
-        let mut shadow = random_doc(rng, 2, common);
+        let mut shadow = if i % 25 == 3 { big_doc(rng, common) } else { random_doc(rng, 2, common) };
         let ds = doc_str(&shadow);
-        let k = 1 + rng.below(16);
+        let k = if i % 25 == 3 || i % 40 == 0 { 20 + rng.below(60) } else { 1 + rng.below(16) };
         let mut h: Vec<String> = vec![];
         for _ in 0..k {
             let p = random_pointer(rng, &shadow);
